@@ -529,9 +529,11 @@ def a4(prog: Program, chk: Check) -> None:
 
 # --------------------------------------------------------------------- A5
 VIEW_METHODS = {"reshape", "view", "ravel", "squeeze", "swapaxes", "transpose", "diagonal"}
-VIEW_FUNCS = {"numpy.asarray", "numpy.reshape", "numpy.swapaxes", "numpy.moveaxis",
+SAME_OBJECT_FUNCS = {"numpy.asarray", "numpy.asanyarray", "numpy.ascontiguousarray",
+                     "numpy.asfortranarray"}
+VIEW_FUNCS = {"numpy.reshape", "numpy.swapaxes", "numpy.moveaxis",
               "numpy.squeeze", "numpy.transpose", "numpy.ravel", "numpy.atleast_1d",
-              "numpy.atleast_2d", "numpy.expand_dims", "numpy.asanyarray"}
+              "numpy.atleast_2d", "numpy.expand_dims"}
 INPLACE_METHODS = {"sort", "fill", "resize", "put", "itemset", "setfield", "partition",
                    "byteswap"}
 META_METHODS = {"setflags"}
@@ -622,6 +624,9 @@ def _alias_kind(prog: Program, u: Unit, du: DefUse, nid: int, e: ast.AST, params
             r = _alias_kind(prog, u, du, nid, e.func.value, params, depth + 1)
             return ("view", r[1]) if r else None
         rs = (_resolve(u.module, e) or "").replace("np.", "numpy.")
+        if rs in SAME_OBJECT_FUNCS and e.args:
+            # np.asarray(x) IS x when no conversion is needed
+            return _alias_kind(prog, u, du, nid, e.args[0], params, depth + 1)
         if rs in VIEW_FUNCS and e.args:
             r = _alias_kind(prog, u, du, nid, e.args[0], params, depth + 1)
             return ("view", r[1]) if r else None
@@ -948,6 +953,111 @@ def a6(prog: Program, chk: Check) -> None:
                 function="<module>")
 
 
+COPY_FUNCS = {"copy", "deepcopy", "numpy.copy", "numpy.array", "copy.copy", "copy.deepcopy"}
+
+
+def _is_copy_expr(mod, e: ast.AST) -> bool:
+    if isinstance(e, ast.Call):
+        if isinstance(e.func, ast.Attribute) and e.func.attr == "copy" and not e.args:
+            return True
+        r = (_resolve(mod, e) or "").replace("np.", "numpy.")
+        return r in COPY_FUNCS or r.split(".")[-1] in ("copy", "deepcopy")
+    return False
+
+
+def a8(prog: Program, chk: Check) -> None:
+    chk.rule("A8", "objects that hold caller-independent state hand out and keep copies: every "
+             "array / object property of Bath and System-like classes returns a copy, Bath's "
+             "constructor copies the correlations object and converts the operator with "
+             "np.array (instances confirmed on the pinned tree are the reference)", floor=18)
+    for cq in ("bath:Bath", "system:System", "system:TimeDependentSystem",
+               "system:TimeDependentSystemWithField", "system:ParameterizedSystem"):
+        ci = prog.cls(cq)
+        for mname, mu in sorted(ci.methods.items()):
+            if "." in mname or not any(norm(d) == "property" for d in mu.node.decorator_list):
+                continue
+            rets = [x for x in walk_local(mu.node) if isinstance(x, ast.Return)]
+            if len(rets) != 1 or rets[0].value is None:
+                continue
+            v = rets[0].value
+            src = None
+            for x in ast.walk(v):
+                if isinstance(x, ast.Attribute) and dotted(x) and dotted(x).startswith("self._"):
+                    src = dotted(x)
+            if src is None or src in ("self._dimension", "self._name", "self._description"):
+                continue
+            ok = _is_copy_expr(mu.module, v)
+            chk.saw(mu)
+            chk.add("A8", mu, f"return {norm(v)}", ok,
+                    "a copy is handed out" if ok else
+                    f"the internal object {src} is handed out: the caller can change the state "
+                    f"of an object that other computations share", rets[0])
+    bi = prog.unit("bath:Bath.__init__")
+    stores = {dotted(st.targets[0]): st.value for st in walk_local(bi.node)
+              if isinstance(st, ast.Assign) and dotted(st.targets[0])}
+    v = stores.get("self._correlations")
+    ok = v is not None and _is_copy_expr(bi.module, v)
+    chk.add("A8", bi, f"self._correlations = {norm(v) if v is not None else '?'}", ok,
+            "" if ok else "the bath keeps the caller's correlations object: later changes of its "
+                          "parameters change the bath")
+    v = stores.get("tmp_coupling_operator")
+    ok = v is not None and isinstance(v, ast.Call) and \
+        (_resolve(bi.module, v) or "").replace("np.", "numpy.") == "numpy.array"
+    chk.add("A8", bi, f"tmp_coupling_operator = {norm(v) if v is not None else '?'}", ok,
+            "" if ok else "the coupling operator is not copied before it is frozen (setflags) "
+                          "and stored")
+    ch = prog.unit("system:_check_hamiltonian")
+    v = next((st.value for st in walk_local(ch.node) if isinstance(st, ast.Assign)
+              and dotted(st.targets[0]) == "tmp_hamiltonian"), None)
+    ok = v is not None and isinstance(v, ast.Call) and \
+        (_resolve(ch.module, v) or "").replace("np.", "numpy.") == "numpy.array"
+    chk.add("A8", ch, f"tmp_hamiltonian = {norm(v) if v is not None else '?'}", ok,
+            "" if ok else "the Hamiltonian is frozen / stored without a copy: setflags would make "
+                          "the CALLER's array read-only")
+
+
+GLOBAL_SETTERS = {"numpy.seterr", "numpy.random.seed", "numpy.set_printoptions",
+                  "numpy.seterrcall", "warnings.simplefilter", "warnings.filterwarnings",
+                  "warnings.resetwarnings", "random.seed", "locale.setlocale",
+                  "sys.setrecursionlimit"}
+GLOBAL_STATE_EXEMPT = {
+    ("backends.tempo_backend", "<module>", "os.environ['NUMPY_EXPERIMENTAL_ARRAY_FUNCTION'] = '0'"):
+        "import-time constant switch, identical for every history",
+}
+
+
+def a6b(prog: Program, chk: Check) -> None:
+    chk.rule("A6b", "library functions do not change process-global state (numpy error / print "
+             "/ random state, warning filters, environment variables)", floor=1)
+    for m in prog.modules.values():
+        for x in ast.walk(m.tree):
+            hit = None
+            if isinstance(x, ast.Call):
+                r = (_resolve(m, x) or "").replace("np.", "numpy.")
+                if r in GLOBAL_SETTERS:
+                    hit = f"{r}(...)"
+            if isinstance(x, (ast.Assign, ast.AugAssign)):
+                tg = x.targets if isinstance(x, ast.Assign) else [x.target]
+                for t in tg:
+                    if isinstance(t, ast.Subscript) and dotted(t.value) == "os.environ":
+                        hit = norm(x)
+            if hit is None:
+                continue
+            owner = "<module>"
+            for u in prog.units.values():
+                if u.module is m and not isinstance(u.node, ast.Lambda) and \
+                        any(y is x for y in ast.walk(u.node)):
+                    owner = u.qual.split(":")[1]
+            key = (m.short, owner, hit)
+            if key in GLOBAL_STATE_EXEMPT:
+                chk.add("A6b", m, hit, None, exception_reason=GLOBAL_STATE_EXEMPT[key], node=x,
+                        function=owner)
+            else:
+                chk.add("A6b", m, hit, False,
+                        "changes process-global state: later computations (of any library) "
+                        "depend on whether this ran", x, function=owner)
+
+
 def run(prog: Program, chk: Check) -> None:
     chk.explanation = (
         "Decides the structural ways in which state leaks in this code base: A1 methods "
@@ -970,3 +1080,5 @@ def run(prog: Program, chk: Check) -> None:
     a4(prog, chk)
     a5(prog, chk)
     a6(prog, chk)
+    a6b(prog, chk)
+    a8(prog, chk)
